@@ -231,6 +231,9 @@ func runC07(r *Run) {
 						if basePresent {
 							files = append(files, c07File{name: "layouts/base.vuego", fm: fmOf("layouts/base.vuego", lbase)})
 						}
+						if rr.Intn(3) == 0 { // a base.vuego beside the page must not capture the default layout
+							files = append(files, c07File{name: "base.vuego", fm: [][2]string{{"a", "relbase-a"}}}, c07File{name: "sub/base.vuego", fm: [][2]string{{"b", "subrelbase-b"}}})
+						}
 						if relA {
 							files = append(files, c07File{name: "a.vuego", fm: fmOf("a.vuego", Pick(rr, []string{"", "b", "base"}), [2]string{"a", "rel-a"})})
 							files = append(files, c07File{name: "sub/a.vuego", fm: [][2]string{{"b", "subrel-b"}}})
